@@ -45,9 +45,10 @@ def make_case(rc):
     elif kind == 'criterion':
         cells = {'A1': 'x', 'A2': 'y', 'B1': '=COUNTIFS(A1:A2,"%s")' % text}
         uid = '_0_1_0'
-    elif kind in ('concat', 'concat_fn', 'concat_cell'):
+    elif kind in ('concat', 'concat_fn', 'concat_cell', 'concat_fn_cell'):
         t2 = rc['text2']
-        f = {'concat': '="%s"&"%s"', 'concat_fn': '=CONCATENATE("%s","%s")', 'concat_cell': '="%s"&B1&"%s"'}[kind] % (text, t2)
+        f = {'concat': '="%s"&"%s"', 'concat_fn': '=CONCATENATE("%s","%s")', 'concat_cell': '="%s"&B1&"%s"',
+             'concat_fn_cell': '=CONCATENATE("%s",B1,"%s")'}[kind] % (text, t2)
         cells = {'A1': f, 'B1': 'mid'}
         uid = '_0_0_0'
     else:
@@ -91,8 +92,8 @@ def make_case(rc):
                             fail = 'the constant text %r evaluates to %r' % (text, got)
                         elif kind in ('concat', 'concat_fn') and got != ('ok', text + rc['text2']):
                             fail = 'the joined literals %r and %r evaluate to %r' % (text, rc['text2'], got)
-                        elif kind == 'concat_cell' and got != ('ok', text + 'mid' + rc['text2']):
-                            fail = 'the joined literals %r & cell & %r evaluate to %r' % (text, rc['text2'], got)
+                        elif kind in ('concat_cell', 'concat_fn_cell') and got != ('ok', text + 'mid' + rc['text2']):
+                            fail = 'the joined literals %r, cell, %r (%s) evaluate to %r' % (text, rc['text2'], kind, got)
                         elif list(cls().get_titles()) != [title]:
                             fail = 'sheet title %r reported as %r' % (title, list(cls().get_titles()))
                     except Exception as ex:  # noqa
@@ -117,7 +118,8 @@ def corpus():
           {'kind': 'constant', 'text': "'+zzcanary(1)+'"}, {'kind': 'constant', 'text': '"""+zzcanary(1)+"""'}, {'kind': 'constant', 'text': 'x\ny\\'},
           {'kind': 'constant', 'text': 'x', 'title': "Data\nzzcanary(1)"}, {'kind': 'constant', 'text': 'x', 'title': "a'b\"c\\"}, {'kind': 'constant', 'text': '{titles}{0}'},
           {'kind': 'concat', 'text': 'a', 'text2': "it's"}, {'kind': 'concat', 'text': "it's", 'text2': ' ok'}, {'kind': 'concat', 'text': 'a', 'text2': "'+str(zzcanary(1))+'x'#"},
-          {'kind': 'concat_fn', 'text': "x'", 'text2': "'+zzcanary(1)+'"}, {'kind': 'concat_cell', 'text': "it's", 'text2': "\\"}, {'kind': 'concat', 'text': '', 'text2': "'"},
+          {'kind': 'concat_fn', 'text': "x'", 'text2': "'+zzcanary(1)+'"}, {'kind': 'concat_fn_cell', 'text': "{", 'text2': "}"},
+          {'kind': 'concat_fn_cell', 'text': "{0.__class__}", 'text2': "%s"}, {'kind': 'concat_cell', 'text': "it's", 'text2': "\\"}, {'kind': 'concat', 'text': '', 'text2': "'"},
           {'kind': 'criterion', 'text': ">7 or (zzcanary)(1)"}, {'kind': 'criterion', 'text': ">7"}, {'kind': 'criterion', 'text': "x')+zzcanary(1)+('"}]
     rs += [x['witness'] for x in C.known_findings()['findings'] if x['property'] == 'C07']
     return rs
@@ -135,7 +137,7 @@ def run(R, tier):
     n = 300 if tier == 'quick' else 4000
     recipes = corpus()
     while len(recipes) < n:
-        kind = R.rng.choice(['constant', 'formula', 'formula', 'criterion', 'concat', 'concat_fn', 'concat_cell'])
+        kind = R.rng.choice(['constant', 'formula', 'formula', 'criterion', 'concat', 'concat_fn', 'concat_cell', 'concat_fn_cell'])
         rc = {'kind': kind, 'text': gen_text(R.rng)}
         if kind.startswith('concat'):
             # two plain literals joined by & / CONCATENATE: no double quote (it would end the literal) and no wildcard (pattern literal) inside
